@@ -111,7 +111,9 @@ def elongSides (g : Gene) (p : Params) (rp : ReadProf) (I : IsoInfo) : Option (L
   | none => none
   | some cl =>
     match rp.blocks.head?, rp.blocks.getLast?, pyGet? g.splitExons cf, pyGet? g.splitExons cl with
-    | some fr, some lr, some sf, some sl => some (elongLeftOf p isoFirst cf fr sf, elongRightOf p isoLast cl lr sl)
+    | some fr, some lr, some sf, some sl =>
+      some (elongLeftOf p isoFirst cf (measuredExon p fr rp.blocks[1]? sf) sf,
+            elongRightOf p isoLast cl (measuredExon p lr rp.blocks.reverse[1]? sl) sl)
     | _, _, _, _ => none
 
 /-- the two index loops of `categorize_exon_elongation_subtype`: (common_first_exon, common_last_exon);
